@@ -577,3 +577,84 @@ Proof.
   - apply iso_SIR_effective_degree.
 Qed.
 End Iso.
+
+(* ====================================================================== *)
+(* degree-distribution helpers (get_Pk, get_PGF / PGFPrime / PGFDPrime,    *)
+(* estimate_R0, get_Pnk: Model/Aux.v): functions of the degree sequence in *)
+(* node order and of the neighbour-degree lists in adjacency order         *)
+(* ====================================================================== *)
+Section DegreeHelpers.
+Lemma ks_perm ds ds' : Permutation ds ds' -> ks ds = ks ds'.
+Proof. intros H. unfold ks. rewrite (maxdeg_perm _ _ H). reflexivity. Qed.
+Lemma Pk_perm ds ds' k : Permutation ds ds' -> Pk ds k = Pk ds' k.
+Proof. intros H. unfold Pk, count. rewrite (proj1 (Permutation_count_occ Nat.eq_dec ds ds') H k), (Permutation_length H). reflexivity. Qed.
+Theorem psi_perm ds ds' x : Permutation ds ds' -> psi ds x = psi ds' x /\ psiP ds x = psiP ds' x /\ psiDP ds x = psiDP ds' x.
+Proof.
+  intros H. unfold psi, psiP, psiDP. rewrite (ks_perm _ _ H).
+  repeat split; f_equal; apply map_ext; intros k; rewrite (Pk_perm _ _ k H); reflexivity.
+Qed.
+Theorem estimate_R0_perm ds ds' T : Permutation ds ds' -> estimate_R0 ds T = estimate_R0 ds' T.
+Proof.
+  intros H. unfold estimate_R0. destruct (psi_perm ds ds' 1 H) as (_ & -> & ->). reflexivity.
+Qed.
+
+(* get_Pnk: the list may be given in any node order, every neighbour-degree list in any order *)
+Definition nd_equiv (nd' nd : list (nat * list nat)) : Prop :=
+  exists nd'', Permutation nd' nd'' /\ Forall2 (fun a b => fst a = fst b /\ Permutation (snd a) (snd b)) nd'' nd.
+Lemma nd_F2_fst (a b : list (nat * list nat)) :
+  Forall2 (fun x y => fst x = fst y /\ Permutation (snd x) (snd y)) a b -> map fst a = map fst b.
+Proof. induction 1 as [|x y l l' [E _] F IH]; [reflexivity|cbn [map]; rewrite E, IH; reflexivity]. Qed.
+Lemma nd_F2_sum (c k1 k2 : nat) (a b : list (nat * list nat)) :
+  Forall2 (fun x y => fst x = fst y /\ Permutation (snd x) (snd y)) a b ->
+  sumQ (map (fun dn => if Nat.eqb (fst dn) k1 then Qnat (count k2 (snd dn)) * (1 / (Qnat k1 * Qnat c)) else 0) a) ==
+  sumQ (map (fun dn => if Nat.eqb (fst dn) k1 then Qnat (count k2 (snd dn)) * (1 / (Qnat k1 * Qnat c)) else 0) b).
+Proof.
+  induction 1 as [|x y l l' [E Pa] F IH]; [reflexivity|]. cbn [map]. rewrite !Rhs2DP.sumQ_cons, IH, E.
+  unfold count. rewrite (proj1 (Permutation_count_occ Nat.eq_dec _ _) Pa k2). reflexivity.
+Qed.
+Theorem Pnk_invariant nd' nd k1 k2 : nd_equiv nd' nd -> Pnk nd' k1 k2 == Pnk nd k1 k2.
+Proof.
+  intros (nd'' & P & F). unfold Pnk. cbv zeta.
+  assert (E1 : count k1 (map fst nd') = count k1 (map fst nd'')).
+  { unfold count. apply (proj1 (Permutation_count_occ Nat.eq_dec _ _)). apply Permutation_map, P. }
+  rewrite E1, (nd_F2_fst _ _ F). rewrite (sum_map_perm _ _ _ P). apply nd_F2_sum, F.
+Qed.
+End DegreeHelpers.
+
+(* the list get_Pnk reads off a graph *)
+Definition nd_of (gg : graph) : list (nat * list nat) := map (fun u => (deg gg u, map (deg gg) (gadj gg u))) (gnodes gg).
+
+Section IsoHelpers.
+Variables (g g' : graph) (phi : node -> node).
+Hypothesis WG : wf_ugraph g = true.
+Hypothesis Hnodes : Permutation (gnodes g') (map phi (gnodes g)).
+Hypothesis Hadj : forall u, In u (gnodes g) -> Permutation (gadj g' (phi u)) (map phi (gadj g u)).
+Theorem iso_nd_of : nd_equiv (nd_of g') (nd_of g).
+Proof.
+  unfold nd_equiv, nd_of.
+  exists (map (fun u => (deg g' (phi u), map (deg g') (gadj g' (phi u)))) (gnodes g)). split.
+  - rewrite <- (map_map phi (fun u' => (deg g' u', map (deg g') (gadj g' u')))). apply Permutation_map, Hnodes.
+  - destruct (wf_ugraph_facts g WG) as (_ & PER & _).
+    assert (CL : forall u v, In u (gnodes g) -> In v (gadj g u) -> In v (gnodes g)).
+    { intros u v Hu Hv. apply ICP.mem_In. destruct (PER u (proj2 (ICP.mem_In u _) Hu)) as (_ & SUB & _).
+      apply (forallb_mem _ _ v SUB). apply ICP.mem_In, Hv. }
+    assert (A : forall l, incl l (gnodes g) ->
+      Forall2 (fun a b : nat * list nat => fst a = fst b /\ Permutation (snd a) (snd b))
+              (map (fun u => (deg g' (phi u), map (deg g') (gadj g' (phi u)))) l)
+              (map (fun u => (deg g u, map (deg g) (gadj g u))) l)).
+    { induction l as [|u l IH]; intros Hl; cbn [map]; constructor.
+      - assert (Hu : In u (gnodes g)) by (apply Hl; left; reflexivity). cbn [fst snd]. split; [apply (iso_deg g g' phi Hadj u Hu)|].
+        etransitivity; [apply Permutation_map, (Hadj u Hu)|]. rewrite map_map.
+        rewrite (map_ext_in (fun v => deg g' (phi v)) (deg g) (gadj g u)); [apply Permutation_refl|].
+        intros v Hv. apply (iso_deg g g' phi Hadj v (CL u v Hu Hv)).
+      - apply IH. intros x Hx. apply Hl. right. exact Hx. }
+    apply A. intros x Hx. exact Hx.
+Qed.
+(* get_Pnk(G), get_Pk(G), the PGFs and estimate_R0(G) are the same for the copy *)
+Theorem iso_Pnk k1 k2 : Pnk (nd_of g') k1 k2 == Pnk (nd_of g) k1 k2.
+Proof. apply Pnk_invariant, iso_nd_of. Qed.
+Theorem iso_estimate_R0 T : estimate_R0 (degseq g') T = estimate_R0 (degseq g) T.
+Proof. apply estimate_R0_perm, (iso_degseq g g' phi Hnodes Hadj). Qed.
+Theorem iso_psi x : psi (degseq g') x = psi (degseq g) x /\ psiP (degseq g') x = psiP (degseq g) x /\ psiDP (degseq g') x = psiDP (degseq g) x.
+Proof. apply psi_perm, (iso_degseq g g' phi Hnodes Hadj). Qed.
+End IsoHelpers.
